@@ -8,6 +8,7 @@ import random
 
 import universe as U
 import suite
+import vlib
 from suite import Batch
 from universe import T, L, M, ST, field, struct
 
@@ -150,6 +151,78 @@ def invalid_universe(rng, copies=1):
     return defs, plan
 
 
+# ---- spec/RegSeqMC.tla: one implementation test per transition of the sequential registry machine ----
+RG = ["L", "A", "B", "X", "W", "V", "M"]
+
+
+def rg_graph(k, flag=False):
+    """a private copy of the graph: sharing (L under A, B, W, V), a cycle (A <-> B), a directly rejected
+    member X, and three wrappers that reach it after / before / long after building accepted types"""
+    n = lambda s: "Rg%s_%d" % (s, k)
+    d = {}
+    d[n("L")] = struct([field(1, "default", T("i32"))])
+    d[n("A")] = struct([field(1, "default", ST(n("L"), True)), field(2, "default", L(ST(n("B"), True))), field(3, "default", T("i32"))])
+    d[n("B")] = struct([field(1, "default", ST(n("L"), False)), field(2, "optional", ST(n("A"), True))])
+    badf = {"id": 2, "key": "2", "req": "default", "t": {"k": "i32", "ptr": False, "gotype": "uint32"}, "nocopy": False,
+            "name": list(b"F2"), "rawtag": 'frugal:"2,default,i32"', "opaque": True}
+    d[n("X")] = struct([field(0, "optional", ST(n("L"), True)), field(1, "default", T("i32")), badf])
+    d[n("X")]["direct_invalid"] = True
+    d[n("W")] = struct([field(1, "default", ST(n("L"), True)), field(2, "optional", ST(n("X"), True))])
+    d[n("V")] = struct([field(1, "optional", ST(n("X"), True)), field(2, "default", ST(n("L"), True))])
+    d[n("M")] = struct([field(1, "default", ST(n("A"), True)), field(2, "default", M(T("string"), ST(n("X"), True)))])
+    for x in ("X", "W", "V", "M"):
+        d[n(x)]["invalid"] = True
+    if flag:
+        for x in RG:
+            d[n(x)]["regmc"] = True
+    return d
+
+
+def regmc_batch(work, res, quick, rng):
+    import json
+    import os
+    base = rg_graph(0, flag=True)
+    U.with_defaults({k: v for k, v in base.items() if not v.get("invalid")})
+    dd = work.sub("regseqmc")
+    dp = os.path.join(dd, "defs.json")
+    json.dump(base, open(dp, "w"))
+    cfg = ("CONSTANT MaxLen = %d\nINIT Init\nNEXT Next\nVIEW View\nINVARIANT CacheClosed\nINVARIANT RejectStable\n"
+           "INVARIANT PublishedBuilt\nCHECK_DEADLOCK FALSE\n" % 6)
+    out, st = vlib.tlc(dd, "RegSeqMC", cfg, env={"VERIF_DEFS": dp}, workers=1, timeout=1200, heap="4g")
+    if st.get("exit") != 0 or "No error has been found" not in out:
+        keep = os.path.join(vlib.VERIF, "work", "last-regseqmc-failure.txt")
+        open(keep, "w").write(out[-30000:])
+        raise vlib.MachineryError("RegSeqMC: the sequential registry model violates its own invariants (or TLC failed); see %s\n%s" % (keep, out[-2500:]))
+    edges = vlib.tlc_printed_json(out, "EDGE")
+    res.tlc_states += st.get("distinct", 0)
+    res.tlc_transitions += st.get("generated", 0)
+    res.extra["regseqmc"] = {"states": st.get("distinct", 0), "transitions": len(edges),
+                             "kinds": {k: sum(1 for e in edges if e["kind"] == k) for k in ("fast", "hit", "built", "rejected")}}
+    if quick:
+        rng.shuffle(edges)
+        edges = edges[:150]
+    res.extra["regseqmc"]["transitions_replayed"] = len(edges)
+    defs, scen = {}, []
+    for k, e in enumerate(edges):
+        g = rg_graph(k)
+        defs.update(g)
+    U.with_defaults({k: v for k, v in defs.items() if not v.get("invalid")})
+    for k, e in enumerate(edges):
+        path = (e["path"] if isinstance(e["path"], list) else []) + [{"s": e["s"], "byptr": e["byptr"]}]
+        steps, vals = [], []
+        for r in path:
+            ty = r["s"].replace("_0", "_%d" % k)
+            if defs[ty].get("invalid"):
+                steps.append({"op": "reject", "ty": ty, "entry": "size" if len(steps) % 2 else "encode", "arg": "ptr" if r["byptr"] else "val",
+                              "class": "regmc", "repeat": 1})
+            else:
+                vals.append(U.base_value({"k": "struct", "ptr": False, "s": ty}, defs, 2, k))
+                steps.append({"op": "size", "ty": ty, "v": len(vals) - 1, "byval": not r["byptr"]})
+        sid = "C13-regmc-%d" % k
+        scen.append({"sid": sid, "prop": "C13", "vals": vals, "steps": steps, "tags": ["regmc", e["kind"]], "dkey": sid})
+    return Batch("regmc", defs, scen)
+
+
 def run(prop, tier, seed, work):
     res = suite.Result(prop, tier, seed)
     rng = random.Random(seed * 4241 + 7)
@@ -183,5 +256,5 @@ def run(prop, tier, seed, work):
     # decode additionally needs a pointer: a struct value is not a valid destination
     steps.append({"op": "reject", "ty": "Leaf", "entry": "decode", "arg": "val", "class": "arg-val-decode", "repeat": 2})
     scen.append({"sid": "C13-args", "prop": prop, "vals": [], "steps": steps, "tags": ["args"], "dkey": "args"})
-    suite.run_batches(res, work, [Batch("invalid", defs, scen)], want_props={"C13", "C01", "C02", "C03", "C04"})
+    suite.run_batches(res, work, [Batch("invalid", defs, scen), regmc_batch(work, res, quick, rng)], want_props={"C13", "C01", "C02", "C03", "C04"})
     return suite.finish(res, RULE, ASSUME)
